@@ -471,6 +471,43 @@ def replay_restart(tier, idx, model):
             setattr(reading, k, v)
 
 
+def name_maps(report):
+    """variable-name tables are mutually consistent (finite tables: enumerated, reported as concrete executions)"""
+    from aurel import reading
+    bad = []
+    for av, ets in reading.aurel_to_ET_varnames.items():
+        back = [reading.transform_vars_ET_to_aurel(e) for e in ets]
+        comps = reading.aurel_tensor_to_scalar.get(av, [av])
+        if back != comps and not (len(ets) == 1 and back == [av]):
+            bad.append((av, ets, back, comps))
+        if reading.transform_vars_aurel_to_ET([av]) != ets:
+            bad.append((av, 'aurel_to_ET', reading.transform_vars_aurel_to_ET([av])))
+    for tv, comps in reading.aurel_tensor_to_scalar.items():
+        if reading.transform_vars_tensor_to_scalar([tv, 'xyz']) != comps + ['xyz']:
+            bad.append((tv, 'tensor_to_scalar'))
+    for e, a in reading.ET_to_aurel_varnames.items():
+        if reading.transform_vars_aurel_to_ET([a]) != [e]:
+            bad.append((e, a, 'ET->aurel->ET'))
+    # grouping back to aurel names must not depend on the order of the ET names and must not lose names
+    import random
+    rng = random.Random(0)
+    for _ in range(200):
+        pick = rng.sample(list(reading.aurel_to_ET_varnames), 3)
+        ets = [e for p_ in pick for e in reading.aurel_to_ET_varnames[p_]]
+        ets = list(dict.fromkeys(ets))
+        shuffled = ets[:]
+        rng.shuffle(shuffled)
+        got = reading.transform_vars_ET_to_aurel_groups(list(shuffled))
+        flat = sorted(e for g in got for e in reading.aurel_to_ET_varnames.get(g, [g]))
+        if sorted(set(flat)) != sorted(set(ets)):
+            bad.append(('groups', pick, got))
+            break
+    report.record('variable-name tables are mutually consistent (aurel <-> ET, tensor <-> components, grouping)',
+                  'holds' if not bad else 'sat', group='name maps (concrete table enumeration)', kind='concrete', trivial=True)
+    if bad:
+        report.violation('name maps', f'inconsistent variable-name translation: {bad[0]}', report.write_replay('name_maps', dict(bad=str(bad[:3]))))
+
+
 def main(report, tier, seed, workers, calibrate=False):
     cs = cases(tier)
     rcs = restart_cases(tier)
@@ -481,7 +518,7 @@ def main(report, tier, seed, workers, calibrate=False):
                          layouts=['one file / one file per process', 'one variable / a group per file'],
                          restarts='<= 3 restarts with symbolic nested-start ranges, <= 2 (quick) / 3 requested iterations',
                          outside=['byte-level HDF5 decoding (h5py)', 'directory scanning (glob, listdir)', 'checkpoint reader',
-                                  'variable-name maps (concrete tables)', 'Carpet refinement-level geometry beyond independent datasets'])
+                                  'Carpet refinement-level geometry beyond independent datasets'])
     report.assumptions += ['chunk iorigin = interior origin - ghost width; stored shape = interior + 2 ghost (as in the four fixtures)',
                            'restart k+1 starts and ends no earlier than restart k; every requested iteration lies in some restart']
     report.stubs += ['reading.h5py -> in-memory files whose datasets are ShapeArr (symbolic shape, brick list)',
@@ -520,6 +557,7 @@ def main(report, tier, seed, workers, calibrate=False):
             else:
                 report.harness_errors.append(f"{r['name']}: symbolic path reports {b['problems'][:2]} but the concrete replay does not: {rp}")
     report.extra['paths_explored'] = tot
+    name_maps(report)
     # unsupported layouts must have raised on every path
     for r in results:
         if r['name'].startswith(('y-split-beside-x', 'z-split-beside-y')):
